@@ -63,7 +63,7 @@ func planFields(p *Prog, plan *types.Named) (hosts, offset, index *types.Var) {
 }
 
 func c15PlanNext(p *Prog, r *Report, rule string) {
-	r.Rule(rule, "QueryPlan.Next returns a host only under index < len(hosts), increments index exactly once per returned host and never on exhaustion, and picks hosts[(offset+index) % len(hosts)]")
+	r.Rule(rule, "QueryPlan.Next returns a host only under index < len(hosts), increments index exactly once per returned host and never on exhaustion, and picks hosts[(offset+index) % len(hosts)] with the sum computed in a type wider than the counters (no wrap within a traversal)")
 	_, plan := lbTypes(p)
 	hostsF, offsetF, indexF := planFields(p, plan)
 	fn := p.methodOf(plan, "Next")
@@ -141,6 +141,8 @@ func c15PlanNext(p *Prog, r *Report, rule string) {
 			}
 			if !isOffsetPlusIndexModLen(ia.Index, hostsF, offsetF, indexF) {
 				bad = append(bad, p.Pos(ia.Pos())+": element index is not (offset + index) % len(hosts)")
+			} else if !sumCannotWrap(p, ia.Index, offsetF, indexF) {
+				bad = append(bad, p.Pos(ia.Pos())+": offset + index is summed in the counters' own width: when the free-running plan counter is within len(hosts) of its maximum the sum wraps in the middle of a traversal, so one host is yielded twice and another never (unless the host count is a power of two)")
 			}
 			// guard: dominated by index < len(hosts)
 			guarded := false
@@ -209,6 +211,28 @@ func isOffsetPlusIndexModLen(v ssa.Value, hostsF, offsetF, indexF *types.Var) bo
 	b, _ := loadedField(stripConv(add.Y))
 	return (a == offsetF && b == indexF) || (a == indexF && b == offsetF)
 }
+
+// sumCannotWrap: the addition feeding the modulo is carried out in a type strictly
+// wider than both counters (offset is a free-running counter: a sum in its own width
+// wraps in the middle of a traversal every 2^32 plans and, unless the host count is a
+// power of two, yields one host twice and skips another).
+func sumCannotWrap(p *Prog, v ssa.Value, offsetF, indexF *types.Var) bool {
+	rem, ok := stripConv(v).(*ssa.BinOp)
+	if !ok {
+		return false
+	}
+	add, ok := stripConvKeepWidth(rem.X).(*ssa.BinOp)
+	if !ok || add.Op != token.ADD {
+		return false
+	}
+	sizes := p.Pkgs[0].TypesSizes
+	w := sizes.Sizeof(add.Type().Underlying())
+	return w > sizes.Sizeof(offsetF.Type().Underlying()) && w > sizes.Sizeof(indexF.Type().Underlying())
+}
+
+// stripConvKeepWidth removes conversions applied to the result of the sum only when
+// they do not matter for where the sum was computed (we want the BinOp itself).
+func stripConvKeepWidth(v ssa.Value) ssa.Value { return stripConv(v) }
 
 func c15PlanNew(p *Prog, r *Report) {
 	const rule = "C15.plan-new"
